@@ -173,7 +173,9 @@ def z1(chk, repo):
                             bad.append("partials[%r, %r] = %s" % (oid[1], oid[2], d))
                 if mn == "compute" and ("out", out) not in r.final.heap:
                     bad.append("outputs[%r] never stored" % out)
-                if bad:
+                if bad and any(e.kind == "store" and e.d.get("cell") and e.d["cell"][0] == "partials" and "?" in e.d["cell"][1:] for e in r.events):
+                    chk.undecided("Z1", key, c.where, "stores to unresolved partials keys: %s" % "; ".join(bad[:2]))
+                elif bad:
                     chk.violation("Z1", key, c.where, "with %s false: %s" % (flag, "; ".join(bad[:3])))
                 else:
                     chk.ok("Z1", key, c.where, "literal zero")
